@@ -106,7 +106,9 @@ func drawC09(t *rapid.T) c09Case {
 		c.Uid = 65534
 	}
 	n := rapid.IntRange(2, 12).Draw(t, "nops")
-	flags := []uint32{0, 0, 1, 1, 2, 3, 0x80, 0xfffffffe, 0x11}
+	// flag words: the four combinations of thread-sync and log, alone and together with further known bits (0x4
+	// SPEC_ALLOW, 0x10 TSYNC_ESRCH) or with bits no kernel knows (the kernel answers EINVAL and attaches nothing)
+	flags := []uint32{0, 0, 1, 1, 2, 3, 0x80, 0xfffffffe, 0x11, 0x4, 0x5, 0x7, 0x13, 0x102, 0x103, 0x101, 0x43, 0x8003, 0x80000003, 0x80000001, 0x42}
 	kinds := []string{"valid", "valid", "valid", "valid", "unknown-name", "bad-index", "no-groups", "oversize", "allow-only", "log-only"}
 	loadedNoTsync := map[int]bool{}
 	faulted := false
